@@ -22,6 +22,8 @@ def specLine (l : Line) : String :=
   | "pos", [_, script] => specPosLine script l.rawRes
   | "script", [v, desc, stmts] => specScriptLine v desc stmts l.rawRes
   | "conc", [v, desc, progs] => specConcLine v desc progs l.rawRes
+  | "sconc", [v, desc, progs, _] => specSchedLine v desc progs l.rawRes false
+  | "strace", [v, desc, progs, _] => specSchedLine v desc progs l.rawRes true
   | "ctor", [_, fn, a, b] =>
     match a.toInt?, b.toInt? with
     | some a, some b => specCtorLine fn a b l.rawRes
